@@ -88,13 +88,17 @@ func (w *inprocWorker) stop() {
 }
 
 func (w *inprocWorker) run(root, text string) (inprocReply, error) {
+	return w.runMode(root, text, "")
+}
+
+func (w *inprocWorker) runMode(root, text, mode string) (inprocReply, error) {
 	if w.cmd == nil {
 		if err := w.start(); err != nil {
 			return inprocReply{}, err
 		}
 	}
 	w.next++
-	b, _ := json.Marshal(map[string]any{"id": w.next, "root": root, "text": text})
+	b, _ := json.Marshal(map[string]any{"id": w.next, "root": root, "text": text, "mode": mode})
 	b = append(b, '\n')
 	if _, err := w.in.Write(b); err != nil {
 		w.stop()
